@@ -31,7 +31,19 @@ package config
 //@ func servablePath
 //@   props C18
 //@   ensures result == servable(p)
-//@ pred docAdmin(c *Config) := c.AdminAPI.Enabled ==> portOK(c.AdminAPI.Port)
+// C18 "never starts half-configured": a malformed entry in the Admin API's IP lists makes the filter fail closed -
+// the Admin API would come up and refuse every client - so it must be rejected at load (cidrEntryOK: the entry
+// parses as a CIDR network or as a single address)
+//@ pred listEntriesOK(l []string) := forall i int :: {l[i]} 0 <= i && i < len(l) ==> cidrEntryOK(l[i])
+//@ pred docAdmin(c *Config) := c.AdminAPI.Enabled ==> portOK(c.AdminAPI.Port) && listEntriesOK(c.AdminAPI.IPAllowList) && listEntriesOK(c.AdminAPI.IPDenyList)
+//@ func validateIPList
+//@   props C18 C10
+//@   ensures exact: result == nil <==> listEntriesOK(entries)
+//@ loop validateIPList #0
+//@   props C18 C10
+//@   invariant idx: -1 <= rangeindex && rangeindex < len(entries)
+//@   invariant seen_ok: forall k int :: {entries[k]} 0 <= k && k <= rangeindex ==> cidrEntryOK(entries[k])
+//@   decreases len(entries) - rangeindex
 // logging: the documentation lists levels debug/info/warn/error and formats text/json; the code additionally
 // tolerates "fatal" and "console" (neither required nor forbidden by the documentation).
 //@ pred docLevel(s string) := s == "" || s == "debug" || s == "info" || s == "warn" || s == "error"
